@@ -820,9 +820,12 @@ Proof.
     destruct (mset_all_In_inv _ _ _ Hin) as [E|[]]. apply in_map_iff in E. destruct E as [[k [b sc]] [<- E]]. cbn [fst snd].
     apply range_sub in E. apply in_map_iff in E. destruct E as [[k' v] [Eq E]]. inversion Eq; subst.
     rewrite Forall_forall in IHp. etransitivity; [apply (IHp (k,v) E)|]. apply (maxof_ge (fun kv => wdepth (snd kv)) props (k,v) E).
-  - (* items *) apply le_n_S. etransitivity; [|apply Nat.le_max_l].
-    destruct items as [|i rest]; [destruct r; cbn; lia|]. inversion IHi as [|? ? IH1 _]; subst.
-    cbn [maxof fold_right]. destruct r; [|destruct op|]; cbn; lia.
+  - (* items *) apply le_n_S.
+    set (it := match items with i :: _ => Some (export_type tb o i) | [] => None end).
+    assert (Hit : (match it with Some i => sdepth i | None => 0 end <= maxof wdepth items)%nat).
+    { unfold it. destruct items as [|i rest]; [lia|]. inversion IHi as [|? ? IH1 _]; subst. cbn [maxof fold_right]. lia. }
+    apply Nat.max_lub; [|lia]. etransitivity; [|apply Nat.le_max_l]. etransitivity; [|exact Hit].
+    destruct r; [|destruct op|]; cbv beta iota; lia.
 Qed.
 
 (* HEADLINE (termination): the schema of a type is no deeper than the type's own syntax tree - for every table, every
